@@ -226,6 +226,7 @@ CHILD_BODIES = {
     "ks": A_("ks", "+=", REF("ID"), None, False),      # single assignment as rule body
     "=Ccd": REF("Ccd"),                                # single reference to a match rule
     "=Cck": REF("Cck"),                                # single reference to a common rule
+    "(cd)#": ("ugrp", (L("c"), L("d")), None, False),  # unordered group as the whole rule body (restate family only)
 }
 CHILD_EXTRA = {"=Ccd": ("Ccd", {}, SEQ(L("c"), L("d"))), "=Cck": ("Cck", {}, SEQ(L("c"), A_("k", "=", REF("ID"))))}
 ROOTS = {
@@ -245,7 +246,7 @@ WS_SETS = [{}, {"ws": "\r\n"}, {"ws": " \t\r\n"}, {"ws": "\t"}, {"ws": "%\n"}]  
 
 def frules(tier, PARAMS=PARAMS):
     """yields (label, grammar). Quick: at most one rule carries a modifier; thorough: up to two."""
-    children = list(CHILD_BODIES)
+    children = [c for c in CHILD_BODIES if c != "(cd)#"]  # the unordered group body belongs to the restate family only
     maxmods = 1 if tier == "quick" else 2
     for rname, rmk in ROOTS.items():
         uses_b = "B" in rname
@@ -284,7 +285,7 @@ def frules_restate():
     for rname, rmk in ROOTS.items():
         if "B" in rname:
             continue
-        for ca in ("cd", "vd", "c+"):
+        for ca in ("cd", "vd", "c+", "(cd)#"):
             for pm, pa in (({"skipws": False}, {"skipws": True}), ({"skipws": True}, {"skipws": False})):
                 rules = [("M", pm, rmk()), ("A", pa, CHILD_BODIES[ca])]
                 if ca in CHILD_EXTRA and CHILD_EXTRA[ca] not in rules:
